@@ -458,7 +458,9 @@ def _has_default_sub(path):
 def _exc_class(e, spec, path):
     """stable class of an exception escaping a help rendering / help run"""
     name = type(e).__name__
-    if name in ("TypeError", "AttributeError") and undescribed(spec, path):
+    # `help <path>` of a command with default sub-commands prints the page of one of those
+    pages = [path] + ([path + [s] for s in path[-1]["subs"] if (s["default"] or s["anonymous"]) and not s["disabled"]] if path else [])
+    if name in ("TypeError", "AttributeError") and any(undescribed(spec, p) for p in pages):
         return "element-without-description"
     if name == "CannotParseArgsException":
         return name + ("|target-has-default-sub-command" if _has_default_sub(path) else "|plain-target")
